@@ -15,12 +15,15 @@ Model: `A10Verif/Model/Teardown.lean` (tied to src/lib.rs, src/io_uring/{mod,
 cq,sq,fd,io,op}.rs by the `teardown` correspondence component). A script is
 any list of `Step`s — creating operations, polling them, kernel completions,
 `Ring::poll`, and the drop of any object at any point — from any population
-(`Cfg`: queue sizes, number of clones and descriptors, pool or not; no bound on
-any of them). All theorems quantify over every population and every script;
+(`Cfg`: queue sizes, number of clones and descriptors, which descriptors are
+DIRECT descriptors and the size of the ring's registered-file table, pool or
+not; no bound on any of them). All theorems quantify over every population and every script;
 the invariants they rest on are proved by induction over the script in
-`Lemmas/TeardownInv.lean`.
+`Lemmas/TeardownInv.lean` (operations and their tokens — single-shot, multishot
+and zero-copy —, owners, regular descriptors, ledger) and
+`Lemmas/TeardownSlot.lean` (the slots of the registered-file table).
 -/
-import A10Verif.Lemmas.TeardownInv
+import A10Verif.Lemmas.TeardownSlot
 
 set_option linter.unusedSimpArgs false
 
@@ -38,7 +41,8 @@ structure Inv (s : St) : Prop where
   p : s.panicked = false
 
 theorem inv_init (c : Cfg) (hc : 1 ≤ c.cq) : Inv (init c) := by
-  refine ⟨⟨?_, ?_, ?_, hc⟩, ⟨⟨?_, ?_, rfl, rfl, rfl, rfl, rfl⟩, ?_, ?_⟩, ⟨?_, ?_⟩, ⟨⟨rfl, ?_, ?_⟩, ?_⟩,
+  refine ⟨⟨?_, ?_, fun _ => trivial, ?_, hc⟩, ⟨⟨?_, ?_, rfl, rfl, rfl, rfl, rfl⟩, ?_, ?_⟩, ⟨?_, ?_⟩,
+    ⟨⟨rfl, ?_, ?_⟩, ?_⟩,
     ⟨fun _ t ht => by simp [init] at ht, fun _ t ht => by simp [init] at ht⟩, rfl⟩
   · intro t ht; simp [init] at ht
   · intro _ i; simp [init, tokQ, want]
@@ -56,7 +60,9 @@ theorem inv_init (c : Cfg) (hc : 1 ≤ c.cq) : Inv (init c) := by
   · simp [init]
   · intro k hk
     have hk' : k < c.fds := by simpa [init] using hk
-    simp [init, List.getD_eq_getElem?_getD, hk']
+    cases hd : c.direct.getD k false <;>
+      simp [init, List.getD_eq_getElem?_getD, hk'] <;>
+      simp [List.getD_eq_getElem?_getD] at hd <;> simp [hd]
   · cases hp : c.pool <;> simp [init, poolLog, hp]
   · intro hh; exact hh
   · intro hs; simp [init] at hs
@@ -87,6 +93,66 @@ theorem reach_step (s : St) (e : Step) (h : Reach s) : Reach (step s e) := by
     | nil => rfl
     | cons x xs ih => simp [run, ih]
   rw [this]
+
+/-! ### The slot invariant holds along every script -/
+
+theorem replicate_getD_zero (n j : Nat) : (List.replicate n 0).getD j 0 = 0 := by
+  rw [List.getD_eq_getElem?_getD]
+  cases hg : (List.replicate n 0)[j]? with
+  | none => rfl
+  | some b =>
+    have := List.mem_of_getElem? hg
+    simp at this
+    rw [this.2]; rfl
+
+theorem invS_init (c : Cfg) (hd : c.directOk) : InvS (init c) := by
+  obtain ⟨hd1, hd2⟩ := hd
+  have hdir : ∀ j, c.direct.getD j false = true → j < c.direct.length := by
+    intro j hj
+    cases hlt : decide (j < c.direct.length) with
+    | true => simpa using hlt
+    | false =>
+      have : c.direct.length ≤ j := by simpa using hlt
+      rw [List.getD_eq_getElem?_getD, List.getElem?_eq_none this] at hj
+      simp at hj
+  refine ⟨?_, ?_, ?_, ?_, rfl, ?_⟩
+  · simp [init]; omega
+  · simpa [init] using hd1
+  · intro j hj
+    have := hdir j hj
+    simp [init]; omega
+  · intro j
+    show (List.replicate c.dtab 0).getD j 0 + ([] : List SqEntry).count _
+      + b2n ((List.replicate c.fds true).getD j false && c.direct.getD j false) = b2n (c.direct.getD j false)
+    rw [replicate_getD_zero]
+    cases hj : c.direct.getD j false with
+    | false => simp
+    | true =>
+      have h1 := hdir j hj
+      have h2 : j < c.fds := by omega
+      simp [List.getD_eq_getElem?_getD, h2]
+  · intro j
+    show (c.direct ++ List.replicate (c.dtab - c.direct.length) false).getD j false
+        = (c.direct.getD j false && ((List.replicate c.dtab 0).getD j 0 == 0))
+    by_cases hl : j < c.direct.length
+    · have h2 : j < c.dtab := by omega
+      simp [List.getD_eq_getElem?_getD, List.getElem?_append_left hl, h2]
+    · have hge : c.direct.length ≤ j := Nat.le_of_not_lt hl
+      have h0 : c.direct.getD j false = false := by
+        rw [List.getD_eq_getElem?_getD, List.getElem?_eq_none hge]; rfl
+      rw [h0]
+      simp only [List.getD_eq_getElem?_getD, List.getElem?_append_right hge, Bool.false_and]
+      cases hg : (List.replicate (c.dtab - c.direct.length) false)[j - c.direct.length]? with
+      | none => rfl
+      | some b =>
+        have := List.mem_of_getElem? hg
+        simp at this
+        rw [this.2]; rfl
+
+theorem invS_run (s : St) (es : List Step) (h : InvS s) : InvS (run s es) := by
+  induction es generalizing s with
+  | nil => exact h
+  | cons e es ih => exact ih _ (invS_step s e h)
 
 /-! ### The theorems -/
 
@@ -149,13 +215,139 @@ theorem C12_pool (c : Cfg) (hc : 1 ≤ c.cq) (es : List Step) :
   · have hs := shared_of_handles _ h.a.toInvA' (handles_pos_of_pool _ hp)
     exact ⟨hs, by rw [h.a.m3]; exact hs⟩
 
-/-- **Every descriptor is closed exactly once.** At every point: close requests
-executed + CLOSE entries still queued + (1 if the `AsyncFd` still exists) = 1. -/
+/-- **Every regular descriptor is closed exactly once.** At every point: close
+requests executed + CLOSE entries still queued + (1 if the `AsyncFd` still
+exists) = 1. And no `close(2)` / CLOSE-by-number is ever made with the number of
+a DIRECT descriptor (it would hit an unrelated regular descriptor). -/
 theorem C12_fd_closed_once (c : Cfg) (hc : 1 ≤ c.cq) (es : List Step) :
     let s := run (init c) es
-    ∀ k, k < s.fdLive.length →
-      s.fdCloses.getD k 0 + s.sq.count (SqEntry.close k) + b2n (s.fdLive.getD k false) = 1 :=
-  (inv_run _ es (inv_init c hc)).c.eq
+    (∀ k, k < s.fdLive.length → s.fdDir.getD k false = false →
+      s.fdCloses.getD k 0 + s.sq.count (SqEntry.close k) + b2n (s.fdLive.getD k false) = 1) ∧
+    (∀ k, k < s.fdLive.length → s.fdDir.getD k false = true →
+      s.fdCloses.getD k 0 = 0 ∧ s.sq.count (SqEntry.close k) = 0) := by
+  intro s
+  have h := (inv_run _ es (inv_init c hc)).c.eq
+  refine ⟨fun k hk hd => ?_, fun k hk hd => ?_⟩
+  · have := h k hk
+    rw [hd] at this
+    simpa using this
+  · have := h k hk
+    rw [hd] at this
+    simp at this
+    exact this
+
+/-- **Every slot of the registered-file table that holds a direct descriptor is
+released exactly once, by its own `AsyncFd`; no other slot is ever touched.** At
+every point of every script, per slot `j`: release requests executed (a CLOSE
+with `file_index = j + 1` consumed by the kernel, or the synchronous
+`FILES_UPDATE(offset j, -1)` of the queue-full fallback) + such CLOSE entries
+still queued + (1 if a live direct `AsyncFd` has index `j`) = 1 if slot `j`
+belongs to a direct descriptor of the population, = 0 otherwise (so every
+request targets the index of the `AsyncFd` that made it); `file_index = 0` is
+never used; and the kernel's table holds a file in slot `j` exactly while a
+live owner or one queued CLOSE stands for it (the table lives as long as the
+ring descriptor: nothing relies on its destruction). -/
+theorem C12_direct_slot_released_once (c : Cfg) (hd : c.directOk) (es : List Step) :
+    let s := run (init c) es
+    (∀ j, s.fdDir.getD j false = true →
+      s.slotRel.getD j 0 + s.sq.count (SqEntry.closeIdx (j + 1)) + b2n (s.fdLive.getD j false) = 1) ∧
+    (∀ j, s.fdDir.getD j false = false →
+      s.slotRel.getD j 0 = 0 ∧ s.sq.count (SqEntry.closeIdx (j + 1)) = 0) ∧
+    s.sq.count (SqEntry.closeIdx 0) = 0 ∧
+    (∀ j, s.slotReg.getD j false = true ↔
+      s.fdDir.getD j false = true ∧
+        s.sq.count (SqEntry.closeIdx (j + 1)) + b2n (s.fdLive.getD j false) = 1) := by
+  intro s
+  have h : InvS s := invS_run _ es (invS_init c hd)
+  clear_value s
+  refine ⟨fun j hj => ?_, fun j hj => ?_, h.zero, fun j => ?_⟩
+  · have := h.eq j
+    rw [hj] at this
+    simpa using this
+  · have := h.eq j
+    rw [hj] at this
+    simp at this
+    exact this
+  · have he := h.eq j
+    rw [h.reg j]
+    cases hj : s.fdDir.getD j false with
+    | false => simp
+    | true =>
+      rw [hj] at he
+      simp only [Bool.and_true, b2n_true] at he
+      simp only [Bool.true_and, beq_iff_eq, true_and]
+      omega
+
+/-- **The synchronous fallback is only ever issued on an open ring descriptor,
+for the `AsyncFd`'s own registered slot.** Whenever a direct `AsyncFd` exists —
+in particular at the moment its drop finds the submission queue full and calls
+`io_uring_register(FILES_UPDATE)` — the ring descriptor is open (and the SQ
+mappings its drop touches first are mapped), its index lies inside the table
+and the table still holds its file there; this holds before and after the
+Ring's drop alike. -/
+theorem C12_direct_owner_sees_live_ring (c : Cfg) (hc : 1 ≤ c.cq) (hd : c.directOk) (es : List Step)
+    (k : Nat) :
+    let s := run (init c) es
+    s.fdLive[k]? = some true → s.fdDir.getD k false = true →
+      s.ringFdOpen = true ∧ s.sqMapped = true ∧ s.sqesMapped = true ∧
+      k < s.slotReg.length ∧ s.slotReg.getD k false = true ∧ s.slotRel.getD k 0 = 0 := by
+  intro s
+  have h : Inv s := inv_run _ es (inv_init c hc)
+  have hs : InvS s := invS_run _ es (invS_init c hd)
+  clear_value s
+  intro hl hk
+  have hsl := shared_of_handles _ h.a.toInvA' (handles_pos_of_fd _ k hl)
+  have hkt : s.fdLive.getD k false = true := by rw [List.getD_eq_getElem?_getD, hl]; rfl
+  have he := hs.eq k
+  rw [hk, hkt] at he
+  simp only [Bool.and_true, b2n_true] at he
+  have h0 : s.slotRel.getD k 0 = 0 := by omega
+  refine ⟨by rw [h.a.m3]; exact hsl, by rw [h.a.m1]; exact hsl, by rw [h.a.m2]; exact hsl,
+    by rw [← hs.rlen]; exact hs.tab k hk, ?_, h0⟩
+  rw [hs.reg k, hk, h0]; rfl
+
+/-- **The synchronous fallback releases exactly the owner's slot**: dropping a
+live, unborrowed direct `AsyncFd` `k` while the submission queue is full is one
+`FILES_UPDATE(offset k, -1)`: afterwards slot `k` is empty and counts one
+release, every other slot is as before, nothing is queued. -/
+theorem C12_direct_sync_fallback_exact (s : St) (k : Nat) (hl : s.fdLive[k]? = some true)
+    (hb : fdBorrowed s k = false) (hk : fdDir s k = true) (hfull : s.sqRoom = false)
+    (hin : k < s.slotReg.length) (hrl : s.slotRel.length = s.slotReg.length) :
+    let s' := core s (.dropDfd k)
+    s'.sq = s.sq ∧ s'.slotReg.getD k false = false ∧ s'.slotRel.getD k 0 = s.slotRel.getD k 0 + 1 ∧
+    (∀ j, j ≠ k → s'.slotReg.getD j false = s.slotReg.getD j false ∧
+      s'.slotRel.getD j 0 = s.slotRel.getD j 0) ∧
+    s'.fdCloses = s.fdCloses := by
+  intro s'
+  have hroom : ({ s.useSq with fdLive := s.fdLive.set k false } : St).sqRoom = false := hfull
+  have hs' : s' = (({ s.useSq with fdLive := s.fdLive.set k false } : St).useSq.releaseSlot k).emit
+      s!"register files-update slot{k} {if k < s.slotReg.length then "ok" else "EINVAL"}" := by
+    show s.dropDfd k = _
+    unfold St.dropDfd
+    rw [if_pos (by simp [hl, hb, hk])]
+    simp only []
+    rw [if_neg (by rw [hroom]; simp)]
+  obtain ⟨_, _, r3⟩ := releaseSlot_slot
+    ({ s.useSq with fdLive := s.fdLive.set k false } : St).useSq k hrl
+  have hkl : k < s.slotRel.length := by rw [hrl]; exact hin
+  rw [hs']
+  refine ⟨rfl, ?_, ?_, fun j hj => ⟨?_, ?_⟩, rfl⟩
+  · rw [emit_slotReg, (r3 k).2]
+    have : decide (k = k ∧ k < s.slotRel.length) = true := by simpa using hkl
+    show (_ && !decide (k = k ∧ k < s.slotRel.length)) = false
+    rw [this]; simp
+  · rw [emit_slotRel, (r3 k).1]
+    show s.slotRel.getD k 0 + (if k = k ∧ k < s.slotRel.length then 1 else 0) = _
+    simp [hkl]
+  · rw [emit_slotReg, (r3 j).2]
+    have : decide (k = j ∧ j < s.slotRel.length) = false := by
+      simp; intro e; exact absurd e.symm hj
+    show (s.slotReg.getD j false && !decide (k = j ∧ j < s.slotRel.length)) = _
+    rw [this]; simp
+  · rw [emit_slotRel, (r3 j).1]
+    show s.slotRel.getD j 0 + (if k = j ∧ j < s.slotRel.length then 1 else 0) = _
+    have : ¬ (k = j ∧ j < s.slotRel.length) := fun e => hj e.1.symm
+    simp [this]
 
 /-- **No operation state is freed twice or while its future exists.** -/
 theorem C12_state_freed_at_most_once (c : Cfg) (hc : 1 ≤ c.cq) (es : List Step) :
@@ -186,7 +378,7 @@ theorem C12_ring_drop_reclaims (s : St) (hr : Reach s) (hl : s.ringLive = true) 
     s'.sq = [] ∧ s'.inflight = [] ∧ s'.cq = [] ∧ s'.overflow = [] ∧ s'.ringLive = false := by
   intro s'
   have h := reach_inv s hr
-  have t0 : TokEq s.useSq.useCq := tokEq_of_eq s _ ⟨h.d.ok, h.d.tok hl⟩ rfl (fun _ => rfl)
+  have t0 : TokEq s.useSq.useCq := tokEq_of_eq s _ ⟨h.d.ok, h.d.tok hl, h.d.suf hl⟩ rfl rfl
   obtain ⟨t1, e1, e2, e3, e4⟩ := cqDrop_spec s.useSq.useCq t0 h.d.cq1
   -- the state after the call itself
   have hcore : core s .dropRing = { s.useSq.useCq.cqDrop with
@@ -212,7 +404,7 @@ theorem C12_ring_drop_reclaims (s : St) (hr : Reach s) (hl : s.ringLive = true) 
       have : s'.ops = (core s .dropRing).ops := f1
       rw [← this]; exact hi
     have hw : want (core s .dropRing).ops i = 0 := by
-      have := t1.2 i
+      have := t1.2.1 i
       rw [hcore]
       show want s.useSq.useCq.cqDrop.ops i = 0
       rw [← this]; simp [tokQ, e1, e2, e3, e4]
@@ -258,14 +450,23 @@ instance (s : St) : Decidable (allDropped s) := by unfold allDropped; infer_inst
 
 /-- Nothing is left behind: the three mappings are unmapped (exactly once each,
 in the order CQ ring, SQE array, SQ ring), the ring descriptor is closed (once,
-last), every queued clean-up request was submitted, every descriptor was
-closed exactly once, the pool's group is unregistered and its two allocations
-freed (once), every operation state box was freed exactly once. -/
+last), every queued clean-up request was submitted, every regular descriptor
+was closed exactly once, every slot of the registered-file table that held a
+direct descriptor was released exactly once (and no regular close was made
+with its number), no other slot was touched, the table was EMPTY when the ring
+descriptor — with which the kernel destroys it — was closed ("left behind" for a
+direct descriptor = its slot still holds the file at that moment or, before
+it, while neither an owner nor a queued CLOSE stands for it), the pool's group
+is unregistered and its two allocations freed (once), every operation state box
+was freed exactly once. -/
 def ledgerEmpty (s : St) : Prop :=
   s.cqMapped = false ∧ s.sqesMapped = false ∧ s.sqMapped = false ∧ s.ringFdOpen = false ∧
   ringLog s.log = [LEv.munmap .cq, LEv.munmap .sqes, LEv.munmap .sq, LEv.closeRing] ∧
   s.sq = [] ∧
-  (∀ k, k < s.fdLive.length → s.fdCloses.getD k 0 = 1) ∧
+  (∀ k, k < s.fdLive.length → s.fdDir.getD k false = false → s.fdCloses.getD k 0 = 1) ∧
+  (∀ k, s.fdDir.getD k false = true → s.slotRel.getD k 0 = 1 ∧ s.fdCloses.getD k 0 = 0) ∧
+  (∀ j, s.fdDir.getD j false = false → s.slotRel.getD j 0 = 0) ∧
+  (∀ j, s.slotReg.getD j false = false) ∧
   s.poolLive = false ∧
   poolLog s.log = (if s.hadPool then [LEv.unregister, LEv.poolFree, LEv.poolFree] else []) ∧
   (∀ t ∈ s.ops, t.op.boxLive = false ∧ t.op.frees = 1)
@@ -279,7 +480,7 @@ instance (s : St) : Decidable (noLate s) := by unfold noLate; infer_instance
 drops, every state of the objects at that moment), once everything is dropped
 the ledger is empty. -/
 def C12_full : Prop :=
-  ∀ (c : Cfg) (es : List Step), 1 ≤ c.cq →
+  ∀ (c : Cfg) (es : List Step), 1 ≤ c.cq → c.directOk →
     allDropped (run (init c) es) → ledgerEmpty (run (init c) es)
 
 theorem count_true_eq_zero (l : List Bool) (h : ∀ b ∈ l, b = false) : l.count true = 0 :=
@@ -288,11 +489,12 @@ theorem count_true_eq_zero (l : List Bool) (h : ∀ b ∈ l, b = false) : l.coun
 /-- **The full ledger, with the one exception named as a hypothesis.** For every
 population, every script: if everything has been dropped and no operation was
 (re)submitted after the Ring had been dropped, nothing is left behind. -/
-theorem C12_partial (c : Cfg) (hc : 1 ≤ c.cq) (es : List Step)
+theorem C12_partial (c : Cfg) (hc : 1 ≤ c.cq) (hdo : c.directOk) (es : List Step)
     (hall : allDropped (run (init c) es)) (hnl : noLate (run (init c) es)) :
     ledgerEmpty (run (init c) es) := by
   have h := inv_run _ es (inv_init c hc)
-  generalize run (init c) es = s at h hall hnl
+  have hS := invS_run _ es (invS_init c hdo)
+  generalize run (init c) es = s at h hS hall hnl
   obtain ⟨hr, hcl, hfd, hph, hbu, hop⟩ := hall
   -- every operation state has been freed
   have hbox : ∀ t ∈ s.ops, t.op.boxLive = false ∧ t.op.frees = 1 := by
@@ -316,7 +518,7 @@ theorem C12_partial (c : Cfg) (hc : 1 ≤ c.cq) (es : List Step)
   -- nothing references the pool
   have hrefs : poolRefs s.toObjs = 0 := by
     have h1 : s.bufs.count true = 0 := count_true_eq_zero _ hbu
-    have h2 : s.ops.countP (fun t => t.kind == .pread && t.op.resInit) = 0 := by
+    have h2 : s.ops.countP (fun t => t.kind.pool && t.op.resInit) = 0 := by
       rw [List.countP_eq_zero]
       intro t ht
       have := (h.d.ok t ht).r2 (hbox t ht).1
@@ -334,18 +536,43 @@ theorem C12_partial (c : Cfg) (hc : 1 ≤ c.cq) (es : List Step)
     simp [handles, hr, hpl, h1, h2, h3]
   have hsl : s.sharedLive = false := h.a.a1 hh
   have hsq := h.b.sq hsl
+  have hdead : ∀ k, s.fdLive.getD k false = false := by
+    intro k
+    rw [List.getD_eq_getElem?_getD]
+    cases hg : s.fdLive[k]? with
+    | none => rfl
+    | some b => exact hfd b (List.mem_of_getElem? hg)
+  have hrel : ∀ j, s.slotRel.getD j 0 = b2n (s.fdDir.getD j false) := by
+    intro j
+    have := hS.eq j
+    rw [hsq, hdead j] at this
+    simpa using this
   refine ⟨by rw [h.a.m4, hr], by rw [h.a.m2, hsl], by rw [h.a.m1, hsl], by rw [h.a.m3, hsl], ?_,
-    hsq, ?_, hpl, ?_, hbox⟩
+    hsq, ?_, ?_, ?_, ?_, hpl, ?_, hbox⟩
   · have := h.b.log.ring
     rw [hr, hsl] at this; simpa using this
-  · intro k hk
+  · intro k hk hd
     have := h.c.eq k hk
-    have hl : s.fdLive.getD k false = false := by
-      rw [List.getD_eq_getElem?_getD]
-      cases hg : s.fdLive[k]? with
-      | none => rfl
-      | some b => exact hfd b (List.mem_of_getElem? hg)
-    rw [hsq, hl] at this; simpa using this
+    rw [hsq, hdead k, hd] at this; simpa using this
+  · intro k hd
+    have hk : k < s.fdLive.length := by
+      have : k < s.fdDir.length := by
+        cases hlt : decide (k < s.fdDir.length) with
+        | true => simpa using hlt
+        | false =>
+          have hge : s.fdDir.length ≤ k := by simpa using hlt
+          rw [List.getD_eq_getElem?_getD, List.getElem?_eq_none hge] at hd
+          simp at hd
+      exact Nat.lt_of_lt_of_le this hS.dlen
+    have := h.c.eq k hk
+    rw [hsq, hdead k, hd] at this
+    refine ⟨by rw [hrel k, hd]; rfl, ?_⟩
+    simpa using this
+  · intro j hd
+    rw [hrel j, hd]; rfl
+  · intro j
+    rw [hS.reg j, hrel j]
+    cases s.fdDir.getD j false <;> rfl
   · have := h.b.log.pool
     rw [hpl] at this
     cases hh : s.hadPool <;> simpa [hh] using this
@@ -364,8 +591,8 @@ leaks its state box — nobody processes completions any more. (Everything else
 of the ledger is released even here.) -/
 theorem C12_full_fails : ¬ C12_full := by
   intro h
-  have hl := h lateCfg lateScript (by decide) (by decide)
-  have := hl.2.2.2.2.2.2.2.2.2
+  have hl := h lateCfg lateScript (by decide) (by decide) (by decide)
+  obtain ⟨_, _, _, _, _, _, _, _, _, _, _, _, this⟩ := hl
   revert this
   decide
 
@@ -392,7 +619,7 @@ theorem C12_late_leaks (c : Cfg) (hc : 1 ≤ c.cq) (es : List Step)
 
 /-- After the last drop the ledger is empty **if and only if** no operation was
 (re)submitted after the Ring had been dropped. -/
-theorem C12_exact (c : Cfg) (hc : 1 ≤ c.cq) (es : List Step)
+theorem C12_exact (c : Cfg) (hc : 1 ≤ c.cq) (hdo : c.directOk) (es : List Step)
     (hall : allDropped (run (init c) es)) :
     ledgerEmpty (run (init c) es) ↔ noLate (run (init c) es) := by
   constructor
@@ -401,9 +628,10 @@ theorem C12_exact (c : Cfg) (hc : 1 ≤ c.cq) (es : List Step)
     | false => rfl
     | true =>
       have := (C12_late_leaks c hc es hall t ht hlate).1
-      rw [(hl.2.2.2.2.2.2.2.2.2 t ht).1] at this
+      obtain ⟨_, _, _, _, _, _, _, _, _, _, _, _, hbox⟩ := hl
+      rw [(hbox t ht).1] at this
       exact absurd this (by simp)
-  · exact C12_partial c hc es hall
+  · exact C12_partial c hc hdo es hall
 
 /-! ### Non-vacuity -/
 
@@ -431,6 +659,84 @@ set_option maxRecDepth 8192 in
 example : (run (init demoCfg) demoScript).ops.map (fun t => t.op.frees) = [1, 1, 1, 1] ∧
     (run (init demoCfg) demoScript).fdCloses = [1, 1] ∧
     (run (init demoCfg) demoScript).log =
+      [.munmap .cq, .unregister, .poolFree, .poolFree, .munmap .sqes, .munmap .sq, .closeRing] := by
+  decide
+
+/-- A population with direct descriptors: descriptor 0 is regular, 1-3 are
+direct (slots 1-3 of a table of 5), the submission queue has ONE entry. One
+direct `AsyncFd` is dropped before the Ring while the queue is full (the
+synchronous `FILES_UPDATE`), one after the Ring with room (CLOSE with
+`file_index = 3` queued, submitted when the last holder goes), one after the
+Ring with the queue full (synchronous release on the still-open ring
+descriptor); the regular descriptor goes last, through `close(2)`. Everything is
+dropped, nothing was submitted late, `directOk` holds: the hypotheses of
+`C12_partial`, `C12_direct_slot_released_once`. Each owned slot counts one
+release, slots 0 and 4 none, the table is empty. -/
+def directCfg : Cfg := { sq := 1, cq := 2, fds := 4, direct := [false, true, true, true], dtab := 5 }
+def directScript : List Step :=
+  [.newOp 0 .read 0, .poll 0 1,        -- the queue is full
+   .dropDfd 1,                         -- sync fallback, the Ring exists
+   .dropRing,                          -- flushes, cancels op0
+   .dropDfd 2,                         -- queued CLOSE, file_index 3
+   .dropDfd 3,                         -- queue full again: sync fallback after the Ring
+   .dropOp 0, .dropFd 0]               -- last holder: `Drop for Shared` submits the CLOSE
+
+set_option maxRecDepth 8192 in
+example : 1 ≤ directCfg.cq ∧ directCfg.directOk ∧ allDropped (run (init directCfg) directScript) ∧
+    noLate (run (init directCfg) directScript) := by decide
+
+set_option maxRecDepth 8192 in
+example : (run (init directCfg) directScript).slotRel = [0, 1, 1, 1, 0] ∧
+    (run (init directCfg) directScript).slotReg = [false, false, false, false, false] ∧
+    (run (init directCfg) directScript).fdCloses = [1, 0, 0, 0] ∧
+    (run (init directCfg) directScript).bad = 0 ∧
+    (run (init directCfg) directScript).log = [.munmap .cq, .munmap .sqes, .munmap .sq, .closeRing] := by
+  decide
+
+/-- In the middle of that script (after the Ring's drop and the queued CLOSE of
+descriptor 2): slot 2 is still registered because one CLOSE is queued for it,
+slot 3 because its owner lives, slot 1 was released by the fallback; the ring
+descriptor is open although the Ring is gone; the hypotheses of
+`C12_direct_sync_fallback_exact` hold for descriptor 3. -/
+example :
+    let s := run (init directCfg) (directScript.take 5)
+    s.ringLive = false ∧ s.ringFdOpen = true ∧ s.slotReg = [false, false, true, true, false] ∧
+    s.slotRel = [0, 1, 0, 0, 0] ∧ s.sq = [.closeIdx 3] ∧
+    s.fdLive[3]? = some true ∧ fdBorrowed s 3 = false ∧ fdDir s 3 = true ∧ s.sqRoom = false ∧
+    3 < s.slotReg.length ∧ s.slotRel.length = s.slotReg.length := by
+  decide
+
+/-- Multishot and zero-copy state machines at the Ring's drop: a multishot pool
+read that has delivered one item, has another one queued and is still in
+flight, and a zero-copy send abandoned between its result and its notification
+(the kernel still owes the final completion). The Ring's drop cancels both, the
+abandoned state is reclaimed; everything is dropped, nothing was submitted late
+(the hypotheses of `C12_partial`), every state box is freed once and the pool
+goes with the last `ReadBuf`. -/
+def multiCfg : Cfg := { sq := 2, cq := 4, fds := 1, pool := true }
+def multiScript : List Step :=
+  [.newOp 0 .mread 0, .newOp 1 .sendzc 0, .poll 0 1, .poll 1 2, .rpoll [],
+   .kpost 0 5 2, .kpost 0 7 2, .kpost 1 64 2,      -- two items, the send's result: all with F_MORE
+   .rpoll [], .poll 0 1,                           -- first item: `ReadBuf` 0
+   .dropOp 1,                                      -- the notification is still owed
+   .dropRing,
+   .dropOp 0, .dropPool, .dropFd 0, .dropBuf 0]
+
+set_option maxRecDepth 8192 in
+example : 1 ≤ multiCfg.cq ∧ multiCfg.directOk ∧ allDropped (run (init multiCfg) multiScript) ∧
+    noLate (run (init multiCfg) multiScript) := by decide
+
+set_option maxRecDepth 8192 in
+example :
+    -- right before the Ring's drop
+    (run (init multiCfg) (multiScript.take 11)).inflight = [0, 1] ∧
+    (run (init multiCfg) (multiScript.take 11)).ops.map (fun t => (t.op.multi, activeB t.op, t.op.futLive))
+      = [(true, true, true), (false, true, false)] ∧
+    (run (init multiCfg) (multiScript.take 11)).bufs = [true] ∧
+    -- after the last drop
+    (run (init multiCfg) multiScript).ops.map (fun t => t.op.frees) = [1, 1] ∧
+    (run (init multiCfg) multiScript).panicked = false ∧
+    (run (init multiCfg) multiScript).log =
       [.munmap .cq, .unregister, .poolFree, .poolFree, .munmap .sqes, .munmap .sq, .closeRing] := by
   decide
 
